@@ -35,7 +35,7 @@ type c06Case struct {
 	ListCut int         `json:"listcut"` // verify against list[:N-ListCut]
 }
 
-var c06Kinds = []string{"seq+1", "nonce+1", "ts+1", "emitter-flip", "chain+1", "cl+1", "bodyflip", "swap", "dup", "reindex", "outsider", "recid", "zero-r", "zero-s", "sigflip", "index-eq-len", "index-255", "unsorted-rotate"}
+var c06Kinds = []string{"seq+1", "nonce+1", "ts+1", "emitter-flip", "chain+1", "cl+1", "bodyflip", "swap", "dup", "reindex", "outsider", "recid", "zero-r", "zero-s", "sigflip", "index-eq-len", "index-255", "unsorted-rotate", "recid-alias", "recid-alias"}
 
 func genC06(t *rapid.T) c06Case {
 	c := c06Case{}
@@ -158,6 +158,11 @@ func runC06(c c06Case) (*vh.Violation, vh.Outcome) {
 		case "recid":
 			if len(ws) >= 1 {
 				ws[a%len(ws)].sig[64] = byte(2 + b%254)
+			}
+		case "recid-alias": // the same signature with its recovery id in another convention (27/28, EIP-155, +2, +4)
+			if len(ws) >= 1 {
+				i := a % len(ws)
+				ws[i].sig[64] += []byte{27, 27, 27, 35, 37, 2, 4, 29}[b%8]
 			}
 		case "zero-r":
 			if len(ws) >= 1 {
